@@ -68,6 +68,41 @@ theorem okRes_ok {st : NState} {x : Res Raft} {res : OpRes} {st' : NState}
   · cases h
   · cases h
 
+/-- `on_entries_fetched`: a stale context changes nothing; otherwise the node is leader of the given term, the
+peer has a progress, and the call is `send_append(to)` / `send_append_aggressively(to)` -/
+theorem onEntriesFetched_ok {st : NState} {to term : Nat} {aggr : Bool} {res : OpRes} {st' : NState}
+    (h : applyOp st (.onEntriesFetched to term aggr) = .ok (res, st')) :
+    st' = st ∨
+    (st.raft.term = term ∧ st.raft.state = .leader ∧ (st.raft.prs.get to).isSome = true ∧
+      ∃ raft, (st.raft.sendAppendAggressively to = .ok raft ∨ st.raft.sendAppend to = .ok raft) ∧
+        st' = { st with raft := raft }) := by
+  simp only [applyOp] at h
+  split at h
+  · cases h; exact Or.inl rfl
+  · rename_i hg
+    split at h
+    · cases h; exact Or.inl rfl
+    · rename_i hp
+      right
+      have hg' : st.raft.term = term ∧ st.raft.state = .leader := by
+        constructor
+        · apply Classical.byContradiction; intro hc; exact hg (Or.inl hc)
+        · apply Classical.byContradiction; intro hc; exact hg (Or.inr hc)
+      refine ⟨hg'.1, hg'.2, ?_, ?_⟩
+      · cases hq : st.raft.prs.get to with
+        | none => rw [hq] at hp; exact absurd rfl hp
+        | some _ => rfl
+      · unfold okRes at h
+        split at h
+        · rename_i raft hx
+          cases h
+          refine ⟨raft, ?_, rfl⟩
+          cases aggr with
+          | true => left; simpa using hx
+          | false => right; simpa using hx
+        · cases h
+        · cases h
+
 /-- the message a call is tagged with: the stepped message, or a local one -/
 def opMsg : NodeOp → Message
   | .step m => m
@@ -329,6 +364,13 @@ theorem call_nstep (st st' : NState) (rnd : Option Nat) (op : NodeOp) (res : OpR
     simp only [applyOp] at h
     cases h
     exact (hrefl.vf (by simp [VF, ncore, Raft.setMaxCommittedSizePerReady])).nstep
+  | onEntriesFetched to term aggr =>
+    rcases onEntriesFetched_ok h with h | ⟨-, -, -, raft, hx, h⟩
+    · cases h; exact hrefl.nstep
+    · cases h
+      rcases hx with hx | hx
+      · exact (hrefl.vf (Res.Post.of_eq (sendAppendAggressively_vf _ _) hx)).nstep
+      · exact (hrefl.vf (Res.Post.of_eq (sendAppend_vf _ _) hx)).nstep
 
 /-- `drain` clears the queue and changes nothing else the vote argument reads -/
 theorem drain_eq (st st' : NState) (h : Node.call st none .drain = .ok (.ok, st')) :
